@@ -86,6 +86,7 @@ pub fn run_c08(seed: u64, n: usize, out: &mut Out) {
         }
         let has_rp = net.iter().any(|l| l.contains("removeparam="));
         let parsed = parse_all(&net);
+        crate::c11::emit_plines(out, &net);
         let dumps: Vec<String> = parsed.iter().map(|p| dump_rule(&p.f, false)).collect();
         if !dumps.is_empty() {
             out.case(&format!("hnew\t{}\t{}", optimize as u8, dumps.join("\t")), "ok", json!({"rules": net, "optimize": optimize}), false);
